@@ -296,8 +296,56 @@ func leaderLoss(out *cq.Out, seed uint64) {
 	}
 }
 
+// retryBudget: with MaxRetries = k every endpoint is tried at most k+1 times per call, and the call returns.
+func retryBudget(out *cq.Out, seed uint64) {
+	for k := 0; k <= 3; k++ {
+		for _, mode := range []string{"500", "down", "recovers"} {
+			s := newScripted(1)
+			s.mode[0] = mode
+			if mode == "recovers" {
+				s.mode[0] = "500"
+			}
+			desc := map[string]interface{}{"scenario": "retry-budget", "seed": seed, "max_retries": k, "server": mode}
+			done := make(chan struct{})
+			var reqs []string
+			var cerr error
+			go func() {
+				defer close(done)
+				c, err := client.NewHTTPClient(client.SetHttpClient(&http.Client{Timeout: 2 * time.Second}), client.SetURLs(s.servers[0].URL),
+					client.SetReadPreference(client.Any), client.SetTopologyDiscovery(false), client.SetHealthChecks(false), client.SetMaxRetries(k), client.SetAPIKey("k"), client.SetHasherFunction(hashing.NewSha256Hasher))
+				if err != nil {
+					return
+				}
+				if mode == "recovers" && k > 0 {
+					go func() { time.Sleep(50 * time.Millisecond); s.mu.Lock(); s.mode[0] = "ok"; s.mu.Unlock() }()
+				}
+				_, cerr = c.Incremental(0, 0)
+				s.mu.Lock()
+				reqs = append([]string{}, s.log...)
+				s.mu.Unlock()
+				c.Close()
+			}()
+			select {
+			case <-done:
+				if len(reqs) > k+1 {
+					out.Violate("C20:more-attempts-than-configured", fmt.Sprintf("with MaxRetries=%d one read against a single node that answers %s issued %d requests (at most %d attempts are configured)", k, mode, len(reqs), k+1), desc)
+				}
+				if mode == "recovers" && k > 0 && cerr != nil {
+					out.Violate("C20:retries-not-used", fmt.Sprintf("with MaxRetries=%d a node that fails once and then answers makes the call fail after %d request(s): %v", k, len(reqs), cerr), desc)
+				}
+			case <-time.After(30 * time.Second):
+				out.Violate("C20:call-does-not-terminate", fmt.Sprintf("with MaxRetries=%d a read against a single node answering %s did not return within 30 s", k, mode), desc)
+			}
+			out.Case(fmt.Sprintf("retry:%d:%s", k, mode), k > 0)
+			out.Count("retry_budget_scenarios", 1)
+			s.close()
+		}
+	}
+}
+
 func clientScenarios(out *cq.Out, rng *cq.Rng, seed uint64, tier string) {
 	leaderLoss(out, seed)
+	retryBudget(out, seed)
 	n := 12
 	if tier == "thorough" {
 		n = 60
